@@ -13,7 +13,8 @@ ASSUMPTIONS = ['virtual-time engine schedules one thread at a time; frame handle
                'protocol PGNs (PF EA/EB/EC/EE) are not used as application PGNs',
                'PGNs are compared with PS cleared for PDU1 (DESIGN.md PGN*)']
 MIN_OBS = {'multipacket_accepted': {'quick': 2500, 'thorough': 25000}, 'deliveries_compared': {'quick': 10000, 'thorough': 100000},
-           'zero_latency_cases': {'quick': 300, 'thorough': 3000}, 'eom_notifications': 1000, 'messages_refused': 100}
+           'zero_latency_cases': {'quick': 300, 'thorough': 3000}, 'eom_notifications': 1000, 'messages_refused': 100,
+           'rx_thread_cases': {'quick': 100, 'thorough': 1000}, 'rx_handler_holds': {'quick': 3000, 'thorough': 30000}}
 
 
 def cases(tier, seed):
